@@ -54,6 +54,18 @@ CHECKS = {
  "C14": (True, "runtime monitor: to_qasm/from_qasm round trips (exhaustive k/d for d<=16), generated QASM texts with independently computed expected circuits, and a rejection corpus that must yield Err without panic",
          "Exploration with an exhaustive core: all 607 single-gate round trips for every k/d, d<=16, plus 8000 random circuits (zero gates, idle qubits, ancilla gates), 10 000 texts (several registers, 10 phase-expression forms, nested user gates, broadcasts, measure), 5000 rejection texts (barrier, reset, if, U, undefined / include-only names) with the construct first/middle/last/alone.",
          "Trusted base: the monitor's own expected-circuit computation; decimals are compared within the f32 precision the parser documents; 0-qubit circuits excluded (OpenQASM has no empty register).", "6/C14"),
+ "C05": (True, "runtime monitor: all decomposition drivers x simplification levels x component splitting x sequential/parallel (rayon pools of 1..16 threads) on generated closed Clifford+T diagrams vs the independent exact evaluator; per-step identity checked offline on the recorded step log (hook H3) incl. steps executed on worker threads; saved terms of open diagrams; Miri (8 schedules) and ThreadSanitizer stress in the thorough tier",
+         "Exploration: ~160 000 decomposer runs and direct steps (quick) over 84 configurations, ~450 000 logged steps of every Decomp kind embedded in host graphs on >300 distinct threads, parallel == sequential for k in {1,2,3,4,8,16}; saved terms of BssTOnly/BssWithCats on diagrams with 1-3 outputs; thorough adds T-count <= 12, Miri with tree borrows on 8 scheduler seeds and a TSan stress with a canary race.",
+         "Trusted base: O1/O2; schedules are sampled, not enumerated (the parallel code shares no mutable state); Sherlock is driven with three-entry `tries` only.", "6/C05"),
+ "C07": (True, "runtime monitor: random expression trees over Scalar4/Dyadic; after every node the stored value (read through the verif_raw hook) is compared with an exact BigInt model; approx-flag honesty, predicates, conversions and ordering checked against the model",
+         "Exploration: ~4 million expression nodes (quick) with operands biased to the edge cases (alignment shifts 0/1/63/64/65/>128, 64-significant-bit mantissas, cancellation to zero, approx-flagged zeros); unflagged => exactly equal to the model; is_zero/is_one/==/exact_phase_and_sqrt2_pow agree with the model value; complex_value/f64 conversions vs exact nearest-f64 within 1e-12; Dyadic cmp/</abs_diff_eq vs the order of the reals.",
+         "Trusted base: ring O1 (BigInt) and oracle ratio; exponents kept where i32 cannot overflow ('supported range'); conversions are judged inside the window the conversion itself accepts (the window's extent is reported as an observation).", "6/C07"),
+ "C09": (True, "runtime monitor: operation histories over the whole public graph interface applied to the vector backend, the hash backend and a BTreeMap reference model; full observable state compared after every operation; pack/clone/copy judged through harness tags",
+         "Exploration: 24 000 histories / 1.7 million operations / 3.5 million state comparisons (quick), every operation kind >= 1400 times, heavy delete/re-add churn (206 000 hole reuses), named insertion in all four id classes, all smart-edge cases, packs with renaming, clones with independence checks; first hit of each signature is delta-debugged.",
+         "Trusted base: reference model refgraph (self-tested); only arguments the documentation calls valid are issued; copy() follows the behaviour shared by both backends (vertices and edges only).", "6/C09"),
+ "C16": (True, "runtime monitor: Phase operations on generated rationals/integers/floats compared with exact BigInt rational arithmetic modulo 2; limit_denominator against a literal CPython port, brute force for m <= 64 and - offline over a recorded event log - the real Python fractions.Fraction",
+         "Exploration: 544 000 evaluations (quick): normal form in (-1,1], == iff equal classes, +,-,neg,*i64, predicates depend only on the class, limit_denominator for m in [2,10^4] (19 840 events re-checked by python3 fractions per quick run), from_f64/to_f64 round trip within 4 ulp.",
+         "Trusted base: oracle ratio (self-tested), CPython's fractions module for the offline log check (python failure = inconclusive). One open known finding (from_f64 on golden-ratio-like floats, root cause in num-rational).", "6/C16"),
 }
 
 NOT_YET = {}
